@@ -8,6 +8,7 @@ import (
 	"path/filepath"
 	"strings"
 	"testing"
+	"time"
 
 	"pgregory.net/rapid"
 
@@ -26,6 +27,10 @@ type cliResult struct {
 	Status int
 }
 
+// slowStdin, when set, feeds standard input through a pipe in several writes
+// with pauses, as a slow producer would.
+var slowStdin []int
+
 func runCLI(dir string, stdin string, args ...string) cliResult {
 	bin := os.Getenv("VERIF_BCL_BIN")
 	if bin == "" {
@@ -33,7 +38,28 @@ func runCLI(dir string, stdin string, args ...string) cliResult {
 	}
 	cmd := exec.Command(bin, args...)
 	cmd.Dir = dir
-	cmd.Stdin = strings.NewReader(stdin)
+	if len(slowStdin) > 0 && stdin != "" {
+		pr, pw, err := os.Pipe()
+		must(err)
+		cmd.Stdin = pr
+		parts := slowStdin
+		go func() {
+			defer pw.Close()
+			rest := stdin
+			for _, n := range parts {
+				if n > len(rest) {
+					n = len(rest)
+				}
+				pw.WriteString(rest[:n])
+				rest = rest[n:]
+				time.Sleep(15 * time.Millisecond)
+			}
+			pw.WriteString(rest)
+		}()
+		defer pr.Close()
+	} else {
+		cmd.Stdin = strings.NewReader(stdin)
+	}
 	var so, se bytes.Buffer
 	cmd.Stdout, cmd.Stderr = &so, &se
 	err := cmd.Run()
@@ -263,7 +289,21 @@ func TestC18(t *testing.T) {
 			}
 			class = "mutant"
 		}
-		src, _ := renderChecked(toks, gen.GenLayout(t, toks, gen.LayoutOpts{Plain: 85}))
+		lay := gen.GenLayout(t, toks, gen.LayoutOpts{Plain: 85})
+		if gen.Chance(t, 25, "pad") {
+			// sources beyond the 1-, 2- and 3-byte classes of offsets and beyond one read page
+			n := gen.Pick(t, "padsize", []int{250, 2300, 2300, 4100, 9000, 68000})
+			var sb strings.Builder
+			for sb.Len() < n {
+				sb.WriteString("# " + strings.Repeat("p", gen.Int(t, 0, 70, "padline")) + "\n")
+			}
+			lay.Gaps[0] = sb.String() + lay.Gaps[0]
+			// and a line end after the last token
+			lay.Gaps[len(lay.Gaps)-1] += "\n"
+			feats = append(feats, "padded-source")
+		}
+		src, _ := renderChecked(toks, lay)
+		slowStdin = nil
 		fl := flagSet{gen.Bool(t, "d"), gen.Bool(t, "t"), gen.Bool(t, "r"), gen.Bool(t, "s")}
 		mode := gen.Pick(t, "mode", []string{"file", "file", "file-other-suffix", "dash", "stdin"})
 		fileArg, name, stdin := "", "/dev/stdin", src
@@ -278,6 +318,12 @@ func TestC18(t *testing.T) {
 		}
 		if strings.HasPrefix(mode, "file") {
 			must(os.WriteFile(filepath.Join(dir, fileArg), []byte(src), 0o644))
+		} else if len(src) > 2 && gen.Chance(t, 30, "slowstdin") {
+			// standard input arriving in several writes
+			for i, k := 0, gen.Int(t, 1, 3, "nwrites"); i < k; i++ {
+				slowStdin = append(slowStdin, gen.Int(t, 1, len(src)-1, "writesize"))
+			}
+			feats = append(feats, "stdin-in-several-writes")
 		}
 		feats = append(feats, "program:"+class, "input:"+mode)
 
